@@ -372,7 +372,7 @@ class Sim(object):
                 if prim is None:
                     continue
                 if isinstance(prim, (list, tuple)):
-                    prim = iter(list(prim))
+                    prim = (x for x in list(prim))       # (a generator, as Association.send hands over)
                 self.provider.from_service_user.items.append(prim)
                 return
             if k == 'call':
@@ -420,7 +420,7 @@ class Sim(object):
                 prim = act['fn'](self) if 'fn' in act else act['prim']
                 if prim is not None:
                     if isinstance(prim, (list, tuple)):
-                        prim = iter(list(prim))
+                        prim = (x for x in list(prim))       # (a generator, as Association.send hands over)
                     self.provider.from_service_user.items.append(prim)
             elif k == 'call':
                 act['fn'](self)
